@@ -108,14 +108,16 @@ TARGETED = [
 def replay_witnesses(ctx):
     """the crash witnesses of Props/C10.v on the whole real front end"""
     from props.c09_witness import with_member_ft, cfg_of
+    # (name, node, embedding, finding key, exception) - exception None: a defect repaired in /repo,
+    # the node must now be refused with a configuration error
     wits = [
-        ('w_S14', {'class': 'static-array', 'element-field-type': {'class': 'uint', 'size': 8}}, 'member',
-         'S14-static-array-KeyError-length', 'KeyError'),
-        ('w_S4', {'class': 'dynamic-array', 'zz': 1}, 'member', 'S4-dynamic-array-KeyError', 'KeyError'),
         ('w_enum_null', {'class': 'uenum', 'size': 8, 'mappings': None}, 'member', 'NEW-KeyError-_create_enum_ft', 'KeyError'),
         ('w_align_float', {'class': 'uint', 'size': 8, 'alignment': 8.0}, 'member',
-         'S18-integral-float-TypeError-_validate_alignment', 'TypeError'),
-        ('w_member_val', {'class': 'struct', 'members': [{'a-b': 5}]}, 'payload', 'NEW-member-name-pattern-TypeError', 'TypeError'),
+         'S19-integral-float-TypeError-_validate_alignment', 'TypeError'),
+        ('w_S14', {'class': 'static-array', 'element-field-type': {'class': 'uint', 'size': 8}}, 'member',
+         'S14-static-array-KeyError-length', None),
+        ('w_S4', {'class': 'dynamic-array', 'zz': 1}, 'member', 'S4-dynamic-array-KeyError', None),
+        ('w_member_val', {'class': 'struct', 'members': [{'a-b': 5}]}, 'payload', 'NEW-member-name-pattern-TypeError', None),
     ]
     body = ['From Coq Require Import List String ZArith.', 'Import ListNotations.',
             'From BT.Front Require Import Json JsonSchema JsonWitness CreateConfigProofs.', 'Open Scope string_scope.',
@@ -147,8 +149,12 @@ def replay_witnesses(ctx):
             got = 'config_error'
         except Exception as e:
             got = type(e).__name__
-        rows.append({'witness': name, 'model': 'Crash ' + exc_name, 'real_front_end': got})
-        if got == exc_name:
+        rows.append({'witness': name, 'model': ('Crash ' + exc_name) if exc_name else 'rejected by the schema', 'real_front_end': got})
+        if exc_name is None:
+            if got != 'config_error':
+                ctx.violation('regression of a repaired defect (%s): field type node %s must be refused with a configuration error, real front end: %s' % (
+                    key, json.dumps(inst), got), {'yaml': text, 'outcome': got, 'witness': name})
+        elif got == exc_name:
             ctx.finding(key, 'schema-valid field type node %s makes _create_config raise %s (not a configuration error); Coq witness %s' % (
                 json.dumps(inst), exc_name, name), {'yaml': text, 'exception': got, 'witness': name})
         else:
@@ -195,7 +201,7 @@ def run(ctx):
         add(t, 'targeted')
     for n in pool:
         add(n, 'harvested')
-    want = ctx.pick(1200, 20000)
+    want = ctx.pick(800, 20000)
     tries = 0
     while len(cases) < want and tries < want * 8:
         tries += 1
